@@ -451,6 +451,83 @@ theorem updateV_safe (a b c : Val) (t : Ty) (hwa : WF a) (hwb : WF b) (hwc : WF 
       · exact hkv p hp
       · exact ⟨(hkv e he).1, hy⟩
 
+/-! ### big maps: the rules on `big_map k v` are the rules on `map k v` -/
+theorem canon_bigMap {b : Val} {k v : Ty} (hw : WF b) (ht : typeOf b = .bigMap k v) : ∃ xs, b = .bigMap k v xs := by
+  have hc : checkVal Mode.strict b (.bigMap k v) = true := hasTy_iff.mpr ⟨hw, ht⟩
+  cases b <;> first | (simp [checkVal] at hc; done) | skip
+  all_goals first
+    | (rename_i k' v' xs; simp [typeOf] at ht; obtain ⟨rfl, rfl⟩ := ht; exact ⟨xs, rfl⟩)
+    | (rename_i t _; cases t <;> simp [checkVal] at hc)
+
+theorem notBig_of_typeOf {b : Val} (h : ∀ k v, typeOf b ≠ .bigMap k v) : ∀ k v items, b ≠ .bigMap k v items := by
+  intro k v items e; subst e; exact h k v rfl
+
+theorem memB_safe (a b : Val) (t : Ty) (hwa : WF a) (hwb : WF b) (hga : litOk a = true) (hgb : litOk b = true)
+    (h : memTyB (typeOf a) (typeOf b) = some t) : (Spec.memB a b).Safe (fun r => litOk r = true) := by
+  by_cases hb : ∃ k v, typeOf b = .bigMap k v
+  · obtain ⟨k, v, hb⟩ := hb
+    obtain ⟨xs, rfl⟩ := canon_bigMap hwb hb
+    exact memV_safe a (.map k v xs) t hwa (wf_big_as_map hwb) hga hgb h
+  · have ht : ∀ k v, typeOf b ≠ .bigMap k v := fun k v e => hb ⟨k, v, e⟩
+    rw [memB_notBig a b (notBig_of_typeOf ht)]
+    rw [memTyB_notBig _ _ ht] at h
+    exact memV_safe a b t hwa hwb hga hgb h
+
+theorem getB_safe (a b : Val) (t : Ty) (hwa : WF a) (hwb : WF b) (hga : litOk a = true) (hgb : litOk b = true)
+    (h : getTyB (typeOf a) (typeOf b) = some t) : (Spec.getB a b).Safe (fun r => litOk r = true) := by
+  by_cases hb : ∃ k v, typeOf b = .bigMap k v
+  · obtain ⟨k, v, hb⟩ := hb
+    obtain ⟨xs, rfl⟩ := canon_bigMap hwb hb
+    exact getV_safe a (.map k v xs) t hwa (wf_big_as_map hwb) hga hgb h
+  · have ht : ∀ k v, typeOf b ≠ .bigMap k v := fun k v e => hb ⟨k, v, e⟩
+    rw [getB_notBig a b (notBig_of_typeOf ht)]
+    rw [getTyB_notBig _ _ ht] at h
+    exact getV_safe a b t hwa hwb hga hgb h
+
+/-- a map read as a big map -/
+def reBig : Val → Val
+  | .map k v xs => .bigMap k v xs
+  | x => x
+
+theorem updateB_big_eq (x o : Val) (k v : Ty) (items : List Val) :
+    Spec.updateB x o (.bigMap k v items) = (Spec.updateV x o (.map k v items)).map' reBig := by
+  cases o <;> first | rfl | (simp only [Spec.updateB, Spec.updateV]; split <;> rfl)
+
+theorem updateB_safe (a b c : Val) (t : Ty) (hwa : WF a) (hwb : WF b) (hwc : WF c)
+    (hga : litOk a = true) (hgb : litOk b = true) (hgc : litOk c = true)
+    (h : updateTyB (typeOf a) (typeOf b) (typeOf c) = some t) :
+    (Spec.updateB a b c).Safe (fun r => litOk r = true ∧ typeOf r = typeOf c) := by
+  by_cases hb : ∃ k v, typeOf c = .bigMap k v
+  · obtain ⟨k, v, hb⟩ := hb
+    obtain ⟨xs, rfl⟩ := canon_bigMap hwc hb
+    have ht : updateTy (typeOf a) (typeOf b) (.map k v) = some (.map k v) := by
+      simp only [typeOf] at h
+      generalize typeOf b = tb at h
+      cases tb <;> simp [updateTyB, updateTy] at h ⊢
+      exact ⟨h.1.1, h.1.2.1, h.1.2.2⟩
+    have hV := updateV_safe a b (.map k v xs) (.map k v) hwa hwb (wf_big_as_map hwc) hga hgb hgc ht
+    cases hq : Spec.updateB a b (.bigMap k v xs) with
+    | ok r =>
+      obtain ⟨items', rfl, hv⟩ := updateB_big a b k v xs r hq
+      rw [hv] at hV
+      simp only [safe_ok, typeOf] at hV ⊢
+      exact ⟨by simpa [litOk] using hV.1, trivial⟩
+    | stuck =>
+      rw [updateB_big_eq] at hq
+      cases hq2 : Spec.updateV a b (.map k v xs) <;> simp [hq2, Res.map', Res.bind] at hq
+      rw [hq2] at hV; exact absurd hV (safe_stuck _)
+    | offguard =>
+      rw [updateB_big_eq] at hq
+      cases hq2 : Spec.updateV a b (.map k v xs) <;> simp [hq2, Res.map', Res.bind] at hq
+      rw [hq2] at hV; exact absurd hV (safe_offguard _)
+    | failed _ => trivial
+    | rtfail => trivial
+    | oof => trivial
+  · have ht : ∀ k v, typeOf c ≠ .bigMap k v := fun k v e => hb ⟨k, v, e⟩
+    rw [updateB_notBig a b c (notBig_of_typeOf ht)]
+    rw [updateTyB_notBig _ _ _ ht] at h
+    exact updateV_safe a b c t hwa hwb hwc hga hgb hgc h
+
 section
 variable (env : Env) (st : List Val) (tr : TRes) (hw : StackWF st) (hg : GoodStack st)
 include hw hg
@@ -477,11 +554,11 @@ theorem safe_XOR (hty : Typing.step .XOR (st.map typeOf) = some tr) : (Spec.step
   safe_binop env st tr hw hg .XOR Spec.xorV orTy (fun _ _ _ => rfl) rfl (fun a => by cases a <;> rfl) (fun _ _ _ => rfl)
     xorV_safe hty
 theorem safe_MEM (hty : Typing.step .MEM (st.map typeOf) = some tr) : (Spec.step env .MEM st).Safe GoodStack :=
-  safe_binop env st tr hw hg .MEM Spec.memV memTy (fun _ _ _ => rfl) rfl (fun a => by cases a <;> rfl) (fun _ _ _ => rfl)
-    memV_safe hty
+  safe_binop env st tr hw hg .MEM Spec.memB memTyB (fun _ _ _ => rfl) rfl (fun a => by cases a <;> rfl) (fun _ _ _ => rfl)
+    memB_safe hty
 theorem safe_GET (hty : Typing.step .GET (st.map typeOf) = some tr) : (Spec.step env .GET st).Safe GoodStack :=
-  safe_binop env st tr hw hg .GET Spec.getV getTy (fun _ _ _ => rfl) rfl (fun a => by cases a <;> rfl) (fun _ _ _ => rfl)
-    getV_safe hty
+  safe_binop env st tr hw hg .GET Spec.getB getTyB (fun _ _ _ => rfl) rfl (fun a => by cases a <;> rfl) (fun _ _ _ => rfl)
+    getB_safe hty
 
 theorem safe_UPDATE (hty : Typing.step .UPDATE (st.map typeOf) = some tr) : (Spec.step env .UPDATE st).Safe GoodStack := by
   rcases st with _ | ⟨a, _ | ⟨b, _ | ⟨c, st⟩⟩⟩
@@ -491,14 +568,14 @@ theorem safe_UPDATE (hty : Typing.step .UPDATE (st.map typeOf) = some tr) : (Spe
   rw [stackWF_cons, stackWF_cons, stackWF_cons] at hw
   rw [goodStack_cons, goodStack_cons, goodStack_cons] at hg
   have ht : Typing.step .UPDATE (typeOf a :: typeOf b :: typeOf c :: st.map typeOf)
-      = (updateTy (typeOf a) (typeOf b) (typeOf c)).map fun t => .ok (t :: st.map typeOf) := rfl
+      = (updateTyB (typeOf a) (typeOf b) (typeOf c)).map fun t => .ok (t :: st.map typeOf) := rfl
   simp only [List.map_cons, ht] at hty
-  cases htf : updateTy (typeOf a) (typeOf b) (typeOf c) with
+  cases htf : updateTyB (typeOf a) (typeOf b) (typeOf c) with
   | none => simp [htf] at hty
   | some t =>
-    have hs : Spec.step env .UPDATE (a :: b :: c :: st) = (Spec.updateV a b c).bind fun r => .ok (r :: st) := rfl
+    have hs : Spec.step env .UPDATE (a :: b :: c :: st) = (Spec.updateB a b c).bind fun r => .ok (r :: st) := rfl
     rw [hs]
-    exact (updateV_safe a b c t hw.1 hw.2.1 hw.2.2.1 hg.1 hg.2.1 hg.2.2.1 htf).bind fun r _ hr => by
+    exact (updateB_safe a b c t hw.1 hw.2.1 hw.2.2.1 hg.1 hg.2.1 hg.2.2.1 htf).bind fun r _ hr => by
       simp [goodStack_cons, hr.1, hg.2.2.2]
 
 theorem safe_GET_AND_UPDATE (hty : Typing.step .GET_AND_UPDATE (st.map typeOf) = some tr) :
@@ -510,32 +587,31 @@ theorem safe_GET_AND_UPDATE (hty : Typing.step .GET_AND_UPDATE (st.map typeOf) =
   rw [stackWF_cons, stackWF_cons, stackWF_cons] at hw
   rw [goodStack_cons, goodStack_cons, goodStack_cons] at hg
   have ht : Typing.step .GET_AND_UPDATE (typeOf a :: typeOf b :: typeOf c :: st.map typeOf)
-      = (updateTy (typeOf a) (typeOf b) (typeOf c)).bind fun t =>
-          (getTy (typeOf a) t).map fun o => .ok (o :: t :: st.map typeOf) := rfl
+      = (updateTyB (typeOf a) (typeOf b) (typeOf c)).bind fun t =>
+          (getTyB (typeOf a) t).map fun o => .ok (o :: t :: st.map typeOf) := rfl
   simp only [List.map_cons, ht] at hty
-  cases htf : updateTy (typeOf a) (typeOf b) (typeOf c) with
+  cases htf : updateTyB (typeOf a) (typeOf b) (typeOf c) with
   | none => simp [htf] at hty
   | some t =>
     simp only [htf, Option.bind_some] at hty
-    cases htg : getTy (typeOf a) t with
+    cases htg : getTyB (typeOf a) t with
     | none => simp [htg] at hty
     | some o =>
       have hs : Spec.step env .GET_AND_UPDATE (a :: b :: c :: st)
-          = (Spec.getAndUpdateV a b c).bind fun r => .ok (r.1 :: r.2 :: st) := rfl
+          = (Spec.getAndUpdateB a b c).bind fun r => .ok (r.1 :: r.2 :: st) := rfl
       rw [hs]
-      unfold Spec.getAndUpdateV
+      unfold Spec.getAndUpdateB
       -- the updated map has the type of the old one, so GET is typed on the old map
       have htc : t = typeOf c := by
         generalize typeOf b = tb at htf
         generalize typeOf c = tc at htf
-        cases tb <;> cases tc <;> simp [updateTy] at htf
-        · exact htf.2.symm
-        · exact htf.2.symm
+        cases tb <;> cases tc <;> simp [updateTyB, updateTy] at htf
+        all_goals exact htf.2.symm
       rw [htc] at htg
-      have hpair : ((Spec.getV a c).bind fun old => (Spec.updateV a b c).bind fun m' => Res.ok (old, m')).Safe
+      have hpair : ((Spec.getB a c).bind fun old => (Spec.updateB a b c).bind fun m' => Res.ok (old, m')).Safe
           (fun r : Val × Val => litOk r.1 = true ∧ litOk r.2 = true) :=
-        (getV_safe a c o hw.1 hw.2.2.1 hg.1 hg.2.2.1 htg).bind fun old _ hold =>
-          (updateV_safe a b c t hw.1 hw.2.1 hw.2.2.1 hg.1 hg.2.1 hg.2.2.1 htf).bind fun m' _ hm' => by
+        (getB_safe a c o hw.1 hw.2.2.1 hg.1 hg.2.2.1 htg).bind fun old _ hold =>
+          (updateB_safe a b c t hw.1 hw.2.1 hw.2.2.1 hg.1 hg.2.1 hg.2.2.1 htf).bind fun m' _ hm' => by
             simp [hold, hm'.1]
       exact hpair.bind fun r _ hr => by simp [goodStack_cons, hr.1, hr.2, hg.2.2.2]
 
@@ -615,7 +691,9 @@ theorem safe_APPLY (hty : Typing.step .APPLY (st.map typeOf) = some tr) : (Spec.
   split at hty
   · rename_i h
     have hb : literalsOk body = true := by simpa using hg.2.1
-    simp [Spec.step, h, goodStack_cons, literalsOk, literalsOks, hg.1, hb, hg.2.2]
+    obtain ⟨h1, hp⟩ := h
+    rw [h1] at hp
+    simp [Spec.step, h1, hp, goodStack_cons, literalsOk, literalsOks, hg.1, hb, hg.2.2]
   · simp at hty
 
 theorem safe_CONCAT (hty : Typing.step .CONCAT (st.map typeOf) = some tr) : (Spec.step env .CONCAT st).Safe GoodStack := by
